@@ -282,27 +282,87 @@ def run(ctx):
              "summed element-wise; pmmap_ext == ('addr','perms') + pmmap_grouped on "
              "every platform", floor=3)
     fm = repo.func("psutil", "Process.memory_maps")
-    asg = {dotted(st.targets[0]): norm_stmt(st.value) for st in ast.walk(fm.node)
-           if isinstance(st, ast.Assign) and isinstance(st.targets[0], ast.Name)}
-    lam = [n for n in ast.walk(fm.node) if isinstance(n, ast.Lambda)]
-    mapc = [c for c in calls_in(fm.node) if dotted(c.func) == "map" and lam
-            and c.args and c.args[0] is lam[0]]
-    okl = bool(lam) and norm_stmt(lam[0].body).replace(" ", "") in ("x+y", "y+x") and mapc \
-        and [norm_stmt(a).replace(" ", "") for a in mapc[0].args[1:]] in (
-            ["d[path]", "nums"], ["nums", "d[path]"])
-    if asg.get("path") == "tupl[2]" and asg.get("nums") == "tupl[3:]" and okl:
-        ctx.ok("C13.R4", "grouping", sample="d[path] = map(x+y, d[path], tupl[3:])")
+    # the accumulation statement D[K] = <element-wise sum of D[K] and N>, in any of
+    # its spellings; K = row[2], N = row[3:]; rows = nt(K, *D[K]) for every key
+    def txt(e):
+        return norm_stmt(deref(fm.node, e)).replace(" ", "")
+
+    def elementwise_sum(e, a, b):
+        e = deref(fm.node, e)
+        if isinstance(e, ast.Call) and dotted(e.func) in ("list", "tuple") and len(e.args) == 1:
+            e = e.args[0]
+        if isinstance(e, ast.Call) and dotted(e.func) == "map" and len(e.args) == 3:
+            f_, x_, y_ = e.args
+            okf = (isinstance(f_, ast.Lambda) and len(f_.args.args) == 2
+                   and isinstance(f_.body, ast.BinOp) and isinstance(f_.body.op, ast.Add)
+                   and {dotted(f_.body.left), dotted(f_.body.right)} ==
+                   {f_.args.args[0].arg, f_.args.args[1].arg}) or dotted(f_) in ("operator.add", "add")
+            return okf and {txt(x_), txt(y_)} == {a, b}
+        if isinstance(e, (ast.ListComp, ast.GeneratorExp)) and len(e.generators) == 1 \
+                and not e.generators[0].ifs:
+            g = e.generators[0]
+            if isinstance(g.iter, ast.Call) and dotted(g.iter.func) == "zip" and len(g.iter.args) == 2 \
+                    and isinstance(g.target, ast.Tuple) and len(g.target.elts) == 2 \
+                    and isinstance(e.elt, ast.BinOp) and isinstance(e.elt.op, ast.Add):
+                return {dotted(e.elt.left), dotted(e.elt.right)} == {dotted(x) for x in g.target.elts} \
+                    and {txt(x) for x in g.iter.args} == {a, b}
+        return False
+    rows_loop = [f_ for f_ in ast.walk(fm.node) if isinstance(f_, ast.For)
+                 and any(isinstance(x, ast.Assign) and isinstance(x.targets[0], ast.Subscript)
+                         for x in ast.walk(f_))]
+    okg, why_g = False, "no accumulation loop found"
+    for lp_ in rows_loop:
+        rv = dotted(lp_.target)
+        stores = [x for x in ast.walk(lp_) if isinstance(x, ast.Assign)
+                  and isinstance(x.targets[0], ast.Subscript) and dotted(x.targets[0].value)]
+        if not rv or not stores:
+            continue
+        dname = dotted(stores[0].targets[0].value)
+        keyt = {txt(x.targets[0].slice) for x in stores}
+        if keyt != {f"{rv}[2]"}:
+            why_g = f"rows are keyed by {sorted(keyt)}, not by slot 2 (the path)"
+            continue
+        kexpr = norm_stmt(stores[0].targets[0].slice).replace(" ", "")
+        sums = [x for x in stores if elementwise_sum(x.value, f"{dname}[{rv}[2]]", f"{rv}[3:]")]
+        inits = [x for x in stores if txt(x.value) == f"{rv}[3:]"]
+        if sums and inits and len(sums) + len(inits) == len(stores):
+            okg = True
+        else:
+            why_g = ("the figures of a path seen again are not the element-wise sum of the "
+                     "stored ones and slots 3.. of the row")
+    if okg:
+        ctx.ok("C13.R4", "grouping", sample="d[row[2]] = elementwise(d[row[2]] + row[3:]) | row[3:]")
     else:
         ctx.fail("C13.R4", "grouping", fm.file, fm.node.lineno, fm.qual,
-                 f"grouping uses path={asg.get('path')}, nums={asg.get('nums')}: rows must "
-                 f"be keyed by slot 2 and slots 3.. summed element-wise")
-    rets = [norm_stmt(s.value).replace(" ", "") for s in ast.walk(fm.node)
-            if isinstance(s, ast.Return)]
-    if "[nt(path,*d[path])forpathind]" in rets and "[nt(*x)forxinit]" in rets:
+                 f"grouping: {why_g}")
+    rets = [s.value for s in ast.walk(fm.node) if isinstance(s, ast.Return)
+            and isinstance(s.value, ast.ListComp)]
+
+    def rows_ok(lc):
+        g = lc.generators[0]
+        e = lc.elt
+        if not (isinstance(e, ast.Call) and len(lc.generators) == 1 and not g.ifs):
+            return None
+        if isinstance(g.target, ast.Name) and len(e.args) == 2 and dotted(e.args[0]) == g.target.id \
+                and isinstance(e.args[1], ast.Starred) \
+                and norm_stmt(e.args[1].value).replace(" ", "") == f"{dotted(g.iter)}[{g.target.id}]":
+            return "grouped"
+        if isinstance(g.target, ast.Tuple) and len(g.target.elts) == 2 and len(e.args) == 2 \
+                and isinstance(g.iter, ast.Call) and isinstance(g.iter.func, ast.Attribute) \
+                and g.iter.func.attr == "items" and dotted(e.args[0]) == dotted(g.target.elts[0]) \
+                and isinstance(e.args[1], ast.Starred) \
+                and dotted(e.args[1].value) == dotted(g.target.elts[1]):
+            return "grouped"
+        if isinstance(g.target, ast.Name) and len(e.args) == 1 and isinstance(e.args[0], ast.Starred) \
+                and dotted(e.args[0].value) == g.target.id:
+            return "flat"
+        return None
+    kinds = {rows_ok(r) for r in rets}
+    if {"grouped", "flat"} <= kinds:
         ctx.ok("C13.R4", "rows", sample="one row per distinct path / one per mapping")
     else:
         ctx.fail("C13.R4", "rows", fm.file, fm.node.lineno, fm.qual,
-                 f"memory_maps returns {rets}")
+                 f"memory_maps returns {[norm_stmt(r) for r in rets]}")
     nplat = 0
     for (mn, n), f in sorted(I.namedtuples.items()):
         if n == "pmmap_ext":
